@@ -263,19 +263,74 @@ def contract(target, case=None, props=()):
 
 
 class LoopContract:
-    def __init__(self, target, ordinal, invariant, variant=None, modifies=(), havoc_types=None):
+    def __init__(self, target, ordinal, invariant, variant=None, modifies=(), havoc_types=None, ghost=None, ghost_step=None):
+        self.ghost_step = ghost_step
         self.target, self.ordinal = target, ordinal
         self.invariant, self.variant = invariant, variant
         self.modifies = tuple(modifies)
         self.havoc_types = havoc_types or {}
+        self.ghost = ghost or {}
 
 
-def loop(target, ordinal, modifies=(), havoc_types=None, variant=None):
-    """@loop('module.func', 0) def inv(locals...) -> bool"""
+def loop(target, ordinal, modifies=(), havoc_types=None, variant=None, ghost=None, ghost_step=None):
+    """@loop('module.func', 0) def inv(locals...) -> bool      (loop ordinal: source order of while/for in the function)"""
     def deco(fn):
-        LOOPS[(target, ordinal)] = LoopContract(target, ordinal, fn, variant, modifies, havoc_types)
+        LOOPS[(target, ordinal)] = LoopContract(target, ordinal, fn, variant, modifies, havoc_types, ghost, ghost_step)
         return fn
     return deco
+
+
+def store(arr, i, v):
+    """functional update of a ghost map (natively a dict)"""
+    d = dict(arr)
+    d[i] = v
+    return d
+
+
+def empty_map():
+    return {}
+
+
+def forall(lo, hi, pred):
+    """for all integers j with lo <= j < hi: pred(j).  Natively a finite conjunction; under the verifier a quantified formula."""
+    return all(pred(j) for j in range(lo, hi))
+
+
+class ArrayT(T):
+    """ghost map Int -> Int (a witness function supplied as a hypothesis)"""
+
+    def fresh(self, ctx, name):
+        from .loops import SArray
+        return SArray(z3.Array(ctx.fresh_name(name), z3.IntSort(), z3.IntSort()))
+
+
+class OpaqueElem(T):
+    """list element about which only its position in the list is known (keys, signatures as abstract objects)"""
+
+    def __init__(self, tag):
+        self.tag = tag
+
+    def fresh(self, ctx, name):
+        return OpaqueRef(self.tag, name, ctx.fresh_int(name + '.pos'))
+
+    def from_prefix(self, ctx, rid, k):
+        n0 = z3.Int('len_' + rid)
+        kt = z3.IntVal(k) if isinstance(k, int) else k
+        return OpaqueRef(self.tag, rid, z3.simplify(n0 - kt))
+
+    def restrict(self, ctx, value):
+        return None
+
+
+class OpaqueRef(Sym):
+    """element number `pos` (from the front) of the abstract list `rid`"""
+    pytype = object
+
+    def __init__(self, tag, rid, pos):
+        self.tag, self.rid, self.pos = tag, rid, pos
+
+    def __repr__(self):
+        return '%s[%s]' % (self.rid, self.pos)
 
 
 def implies(a, b):
